@@ -1,5 +1,5 @@
 ------------------------- MODULE MC_SelectorExport -------------------------
+(* MC_Selector plus the export of the cases, evaluated once when TLC starts. *)
 EXTENDS MC_Selector
 ASSUME Export
-Stop == FALSE /\ db = db
 =============================================================================
